@@ -94,17 +94,27 @@ def dir_of(part):
     return part.rsplit("/", 1)[0] if "/" in part else ""
 
 
+XSTRING_RE = re.compile(r"_x([0-9A-Fa-f]{4})_")
+
+
+def xstring(s):
+    """ST_Xstring (ECMA-376 Part 1 22.9.2.19): _xHHHH_ stands for U+HHHH (left to right, non-overlapping)"""
+    if "_x" not in s:
+        return s
+    return XSTRING_RE.sub(lambda m: chr(int(m.group(1), 16)), s)
+
+
 def rst_text(el):
     """text of a CT_Rst: <t> and every <r><t>; phonetic runs are not part of the value"""
     out = []
     for c in el:
         n = local(c.tag)
         if n == "t":
-            out.append(c.text or "")
+            out.append(xstring(c.text or ""))
         elif n == "r":
             for t in c:
                 if local(t.tag) == "t":
-                    out.append(t.text or "")
+                    out.append(xstring(t.text or ""))
     return "".join(out)
 
 
